@@ -135,6 +135,7 @@ JudgeCodec(e) ==
          ELSE (IF Len(e.enc) < 2 \/ e.enc[1] # 58 \/ ~InRange(SubSeq(e.enc, 2, Len(e.enc))) THEN "sparse6 uses a byte the format does not allow"
                ELSE IF ~S6HeaderOK(e.enc, G.n) THEN "sparse6 size header differs from the format definition"
                ELSE IF ~S6Decode(e.enc).ok \/ S6Decode(e.enc).G # G THEN "the format definition's reader does not recover the graph from the sparse6 string"
+               ELSE IF S6Decode(e.enc).loop THEN "the format definition's reader finds a loop in the sparse6 string of a simple graph (the padding reads as a pair {n-1, n-1}: special case n = 2, 4, 8, 16 of the definition)"
                ELSE IF DecWhy(e.dec, G, "Sparse6Decode") # "" THEN DecWhy(e.dec, G, "Sparse6Decode")
                ELSE DecWhy(e.dech, G, "Sparse6Decode with header"))
 
